@@ -92,6 +92,17 @@ def _constlike(e):
     return d is not None and "." in d and d.split(".")[0][:1].isupper() and "@" not in d
 
 
+def prefix_slice_index(n):
+    """X[:k][i] with literal 0 <= i < k is X[i] for every sequence X (both raise IndexError together)."""
+    if isinstance(n, ast.Subscript) and isinstance(n.slice, ast.Constant) and isinstance(n.slice.value, int) and not isinstance(n.slice.value, bool) \
+            and isinstance(n.value, ast.Subscript) and isinstance(n.value.slice, ast.Slice):
+        sl = n.value.slice
+        low0 = sl.lower is None or (isinstance(sl.lower, ast.Constant) and sl.lower.value == 0)
+        if low0 and sl.step is None and isinstance(sl.upper, ast.Constant) and isinstance(sl.upper.value, int) and 0 <= n.slice.value < sl.upper.value:
+            return ast.Subscript(value=n.value.value, slice=n.slice, ctx=n.ctx)
+    return None
+
+
 class _Simplifier(ast.NodeTransformer):
     """Partial evaluation of what is decidable from spelling alone: lookups in literal dicts with constant keys,
     comparisons between constants / enum members, boolean operators and conditional expressions over the results,
@@ -128,7 +139,8 @@ class _Simplifier(ast.NodeTransformer):
         if isinstance(n.value, (ast.Tuple, ast.List)) and isinstance(n.slice, ast.Constant) and isinstance(n.slice.value, int) \
                 and not any(isinstance(e, ast.Starred) for e in n.value.elts) and -len(n.value.elts) <= n.slice.value < len(n.value.elts):
             return n.value.elts[n.slice.value]
-        return n
+        r = prefix_slice_index(n)
+        return n if r is None else r
 
     def visit_BinOp(self, n):
         self.generic_visit(n)
